@@ -287,7 +287,9 @@ class ExceptionTrace(object):
         self._render_trace(io, inspector.frames)
 
         self._render_line(
-            io, "<error>{}</error>".format(inspector.exception_name), True
+            io,
+            "<error>{}</error>".format(self._escape(inspector.exception_name)),
+            True,
         )
         io.write_line("")
         exception_message = self._escape(inspector.exception_message).replace(
@@ -304,9 +306,9 @@ class ExceptionTrace(object):
         self._render_line(
             io,
             "at <fg=green>{}</>:<b>{}</b> in <fg=cyan>{}</>".format(
-                self._get_relative_file_path(frame.filename),
+                self._escape(self._get_relative_file_path(frame.filename)),
                 frame.lineno,
-                frame.function,
+                self._escape(frame.function),
             ),
             True,
         )
@@ -396,9 +398,11 @@ class ExceptionTrace(object):
                         "<fg=yellow>{:>{}}</>  <fg=default;options=bold>{}</>:<b>{}</b> in <fg=cyan>{}</>".format(
                             i,
                             max_frame_length,
-                            self._get_relative_file_path(frame.filename),
+                            self._escape(
+                                self._get_relative_file_path(frame.filename)
+                            ),
                             frame.lineno,
-                            frame.function,
+                            self._escape(frame.function),
                         ),
                         True,
                     )
